@@ -10,8 +10,10 @@ import (
 	"io"
 	"net/http"
 	"os"
+	"regexp"
 	"sort"
 	"strings"
+	"sync"
 
 	"github.com/vektah/gqlparser/v2"
 	"github.com/vektah/gqlparser/v2/ast"
@@ -167,6 +169,12 @@ func isEntityRequest(r *sim.Request) bool { return strings.Contains(r.Query, "_e
 var faultSchema *ast.Schema
 var faultRequired map[string]bool
 
+// faultNulled collects the field names the partial failure has nulled in the current case.
+var (
+	faultNulledMu sync.Mutex
+	faultNulled   = map[string]bool{}
+)
+
 func faultNullable(typ, field string) bool {
 	if faultSchema == nil {
 		return false
@@ -246,6 +254,9 @@ func respond(kind string, r *sim.Request, answer []byte) *sim.Response {
 					}
 				}
 				em[keys[0]] = nil
+				faultNulledMu.Lock()
+				faultNulled[keys[0]] = true
+				faultNulledMu.Unlock()
 				m["errors"] = []any{map[string]any{"message": "injected: resolver failed", "path": []any{"_entities", i, keys[0]}}}
 				return &sim.Response{Status: 200, Body: []byte(ref.JSON(m))}
 			}
@@ -506,6 +517,9 @@ func checkFault(c faultCase, o *pbt.Rec) pbt.Verdict {
 	}
 	defer gw.Close()
 	faultSchema = gw.World.Super
+	faultNulledMu.Lock()
+	faultNulled = map[string]bool{}
+	faultNulledMu.Unlock()
 	faultRequired = map[string]bool{}
 	for coord, sel := range c.Layout.Requires {
 		typ := strings.SplitN(coord, ".", 2)[0]
@@ -666,6 +680,24 @@ func checkOneFaultSet(gw *kit.Gateway, c faultCase, base *runResult, byKey map[s
 	}
 	// (3a) faults only null data
 	if s := refines(base.data, f.data, "data"); s != "" {
+		// recorded: with the validation switches on, an entity withheld from one fetch (its
+		// required input failed) is still sent to a later @requires fetch whose own input was
+		// to come from the withheld fetch, with that input null
+		partial := false
+		for k, kind := range fs {
+			if kind == "partial-null-error" && f.hit[k] {
+				partial = true
+			}
+		}
+		// … and only when the null input is NOT the field the injected failure nulled (that
+		// entity must have been withheld: a miss there is a plain violation)
+		m := regexp.MustCompile(`value "req\(\{\\"(\w+)\\":null`).FindStringSubmatch(s)
+		faultNulledMu.Lock()
+		own := m != nil && faultNulled[m[1]]
+		faultNulledMu.Unlock()
+		if c.Validate && partial && m != nil && !own {
+			return pbt.BadKnown("C07-requires-chain-second-hop-sent-with-null", "fault changed data other than by nulling: %s%s", s, ctx()), false
+		}
 		return pbt.Bad("fault changed data other than by nulling: %s%s", s, ctx()), false
 	}
 	// (4) no fabricated requests: same subgraph and operation as a fault-free request, with a
